@@ -2214,6 +2214,124 @@ def translate_tree_imputer(repo):
     return head + "\n".join("  " + x for x in lines) + f"\n  return {result}\n\nend Ixai.Gen\n", [TREE_IMP_FILE], sha
 
 
+# ----------------------------------------------------------------------------------------------------------------
+# RiverMetricToLossFunction.__call__ (ixai/utils/wrappers/river.py) over the abstract metric of Model/RiverLoss.lean.  The boolean
+# configuration attribute `self._dict_input_metric` decides the TYPE of what the metric receives, so the method is translated twice,
+# once per value of the flag (conditions on the flag are decided at translation time):
+#   self._river_metric.update(y_true=a, y_pred=b) -> st := m.update st (a, b) ; .revert likewise ; .get() -> m.get st
+#   y_prediction.get('output', 0) -> singleValueArg y_prediction  (label 0 stands for 'output') ; self._sign -> parameter sign : K
+# ----------------------------------------------------------------------------------------------------------------
+RIVER_FILE = "ixai/utils/wrappers/river.py"
+
+
+def translate_river_loss(repo):
+    text = open(os.path.join(repo, RIVER_FILE)).read()
+    tree = ast.parse(text, filename=RIVER_FILE)
+    cls = [n for n in tree.body if isinstance(n, ast.ClassDef) and n.name == "RiverMetricToLossFunction"]
+    fns = [n for n in (cls[0].body if cls else []) if isinstance(n, ast.FunctionDef) and n.name == "__call__"]
+    if len(fns) != 1:
+        raise Unsupported(f"{RIVER_FILE}: RiverMetricToLossFunction.__call__ not found")
+    fn = fns[0]
+
+    def err(node, msg):
+        raise Unsupported(f"{RIVER_FILE}:{getattr(node, 'lineno', '?')}: {msg}: `{ast.unparse(node)[:80]}`")
+    if [a.arg for a in fn.args.args[1:]] != ["y_true", "y_prediction"]:
+        err(fn, "signature changed")
+    out = []
+    for flag in (False, True):
+        env = {"y_true": ("y_true", "Y"), "y_prediction": ("y_prediction", "DictK")}
+        counter = [0]
+
+        def const_test(t):
+            """value of a condition that only mentions the configuration flag, else None"""
+            u = ast.unparse(t)
+            if u == "self._dict_input_metric":
+                return flag
+            if u == "not self._dict_input_metric":
+                return not flag
+            return None
+
+        def expr(e):
+            u = ast.unparse(e)
+            if isinstance(e, ast.Name) and e.id in env:
+                return env[e.id]
+            if u == "self._sign":
+                return "sign", "K"
+            if u in ("y_prediction.get('output', 0)", 'y_prediction.get("output", 0)') and env["y_prediction"][1] == "DictK":
+                return f"(singleValueArg {env['y_prediction'][0]})", "K"
+            if isinstance(e, ast.Call) and isinstance(e.func, ast.Attribute) and ast.unparse(e.func.value) == "self._river_metric":
+                if e.func.attr == "get" and not e.args and not e.keywords:
+                    return "(m.get st)", "K"
+            if isinstance(e, ast.BinOp) and isinstance(e.op, ast.Mult):
+                a, at = expr(e.left)
+                b, bt = expr(e.right)
+                if at == bt == "K":
+                    return f"({a} * {b})", "K"
+            err(e, "unsupported expression")
+
+        def metric_step(c):
+            f = c.func
+            if isinstance(f, ast.Attribute) and ast.unparse(f.value) == "self._river_metric" and f.attr in ("update", "revert") and not c.args:
+                kw = {k.arg: k.value for k in c.keywords}
+                if set(kw) != {"y_true", "y_pred"}:
+                    err(c, "metric call without y_true / y_pred")
+                a, at = expr(kw["y_true"])
+                b, bt = expr(kw["y_pred"])
+                want = "DictK" if flag else "K"
+                if at != "Y" or bt != want:
+                    err(c, f"the metric receives ({at}, {bt}) instead of (label, {'prediction dict' if flag else 'single value'})")
+                return f"st := m.{f.attr} st ({a}, {b})"
+            return None
+
+        lines = ["let mut st := st"]
+        result = None
+        body = [s for s in fn.body if not (isinstance(s, ast.Expr) and isinstance(s.value, ast.Constant))]
+
+        def run(stmts):
+            nonlocal result
+            for s_ in stmts:
+                if isinstance(s_, ast.If):
+                    cv = const_test(s_.test)
+                    if cv is None:
+                        err(s_, "a condition that is not decided by the configuration flag")
+                    run(s_.body if cv else s_.orelse)
+                elif isinstance(s_, ast.Assign) and len(s_.targets) == 1 and isinstance(s_.targets[0], ast.Name):
+                    tg = s_.targets[0].id
+                    ms = metric_step(s_.value) if isinstance(s_.value, ast.Call) else None
+                    if ms is not None:
+                        lines.append(ms)          # `_ = metric.update(...)`: the returned object is not used
+                        continue
+                    v, t = expr(s_.value)
+                    counter[0] += 1
+                    ln = f"{tg}_{counter[0]}"
+                    env[tg] = (ln, t)
+                    lines.append(f"let {ln} := {v}")
+                elif isinstance(s_, ast.Expr) and isinstance(s_.value, ast.Call):
+                    ms = metric_step(s_.value)
+                    if ms is None:
+                        err(s_, "unsupported expression statement")
+                    lines.append(ms)
+                elif isinstance(s_, ast.Return) and s_.value is not None:
+                    v, t = expr(s_.value)
+                    if t != "K":
+                        err(s_, "returns something other than a number")
+                    result = v
+                else:
+                    err(s_, "unsupported statement")
+        run(body)
+        if result is None:
+            err(fn, "no return")
+        name = "RiverMetricToLossFunction.call_dict" if flag else "RiverMetricToLossFunction.call_single"
+        aty = "Y × Dict K" if flag else "Y × K"
+        out.append(f"def {name} {{σ Y : Type}} (m : Metric σ ({aty}) K) (sign : K) (st : σ) (y_true : Y) (y_prediction : Dict K) : K × σ := Id.run do\n"
+                   + "\n".join("  " + x for x in lines) + f"\n  return ({result}, st)\n")
+    sha = hashlib.sha256(text.encode()).hexdigest()[:16]
+    head = (f"/-\n  GENERATED by tools/py2lean_eff.py from {RIVER_FILE} — do not edit.\n  sha256: {sha}\n"
+            "  `RiverMetricToLossFunction.__call__`, once per value of the configuration flag `dict_input_metric`, over the abstract metric.\n-/\n"
+            "import IxaiVerif.Model.RiverLoss\n\nnamespace Ixai.Gen\nopen Ixai\n\nvariable {K : Type} [Mul K] [OfNat K 0]\n\n")
+    return head + "\n".join(out) + "\nend Ixai.Gen\n", [RIVER_FILE], sha
+
+
 class Source:
     def __init__(self, repo, files=None):
         self.repo = repo
@@ -2325,6 +2443,16 @@ def generate(repo=None, outdir=None):
         report["BatchSage"] = {"sources": rels, "sha256": sha, "changed": old != text}
     except (Unsupported, SyntaxError, OSError) as ex:
         report["BatchSage"] = {"sources": [BATCH_FILES["BatchSage"]], "sha256": "", "changed": False, "error": str(ex)}
+    try:
+        text, rels, sha = translate_river_loss(repo)
+        path = os.path.join(outdir, "RiverLossAdapter.lean")
+        old = open(path).read() if os.path.exists(path) else None
+        if old != text:
+            with open(path, "w") as fh:
+                fh.write(text)
+        report["RiverLossAdapter"] = {"sources": rels, "sha256": sha, "changed": old != text}
+    except (Unsupported, SyntaxError, OSError, IndexError, KeyError) as ex:
+        report["RiverLossAdapter"] = {"sources": [RIVER_FILE], "sha256": "", "changed": False, "error": str(ex)}
     try:
         text, rels, sha = translate_tree_imputer(repo)
         path = os.path.join(outdir, "TreeImputerStorage.lean")
